@@ -16,9 +16,13 @@ def stmt(e):
 
 def main():
     ents = [e for e in guardtable.ENTRIES if not e["native"]]
-    L = ["(* Model/Guards.v -- hand-written range / conformability specifications of the checked entry points (C20).",
-         "   Written from the documentation and the property text, NOT from the guards: the theorems of Props/C20.v",
-         "   show that the guards regenerated from the source (gen/GuardTable.v) fire exactly outside these ranges. *)",
+    L = ["(* Model/Guards.v -- range / conformability specifications of the checked entry points (C20).",
+         "   This file is written out by driver/gen_c20_coq.py from the hand-written `spec` column of driver/guardtable.py",
+         "   (one line per entry; edit it there).  The specifications come from the documentation and the property text,",
+         "   NOT from the guards: the theorems of Props/C20.v show that the guards regenerated from the source",
+         "   (gen/GuardTable.v) fire exactly outside these ranges.  Entries rejected only by Vec indexing (band_index_*,",
+         "   raw (i,j) operators: `native` in the table) have no specification here; their contract is",
+         "   entry_contract_native in Props/C20.v. *)",
          "From Coq Require Import ZArith.", "Local Open Scope Z_scope.", ""]
     for e in ents:
         vs = " ".join(n for n, _, _ in e["vars"])
